@@ -176,6 +176,155 @@ theorem unchanged_keeps_controller_partial (K : Calc R S) (hK : EqPER K) (now : 
           simp only [matching, List.filter_append, List.filter_cons, hp, Bool.false_eq_true, if_false] at hc ⊢
           exact hc
 
+/-- the order-insensitive condition implies the exact one -/
+theorem noStealB_imp_noStealS (K : Calc R S) (new : List R) (old : List (Ctl R S)) (h : noStealB K new old = true) :
+    noStealS K new old = true := by
+  induction new generalizing old with
+  | nil => rfl
+  | cons r rs ih =>
+    simp only [noStealB, Bool.and_eq_true, List.all_eq_true] at h
+    obtain ⟨hhead, htail⟩ := h
+    by_cases hex : ∃ c' ∈ old, K.eq c'.rule r = true
+    · obtain ⟨l1, c0, l2, e, hl, hc0, -⟩ := reuseIdx_finds K r old 0 none hex
+      subst e
+      rw [noStealS_cons_eq K r rs l1 c0 l2 hl hc0]
+      exact ih _ (noStealB_mono K rs _ _ (by intro x hx; simp at hx ⊢; tauto) htail)
+    · have hall : ∀ c' ∈ old, K.eq c'.rule r = false := by
+        intro c' hc'; by_contra hne; exact hex ⟨c', hc', by simpa using hne⟩
+      rcases reuseIdx_snd K r old 0 hall with ⟨-, hnone⟩ | ⟨l1, c0, l2, e, hl, hc0, -⟩
+      · rw [noStealS_cons_fresh K r rs old hall hnone]
+        exact ih old htail
+      · subst e
+        rw [noStealS_cons_stat K r rs l1 c0 l2 hall hl hc0]
+        have hd := hhead c0 (by simp)
+        simp only [hc0, hall c0 (by simp), Bool.not_false, Bool.and_self, Bool.not_true, Bool.false_or] at hd
+        rw [hd, Bool.true_and]
+        exact ih _ (noStealB_mono K rs _ _ (by intro x hx; simp at hx ⊢; tauto) htail)
+
+/-- The same under the exact hypothesis `noStealS` (weaker than `noStealB`, see `noStealB_imp_noStealS`): it follows the
+    builder and fails precisely when some rule takes the statistic of an old controller whose rule still occurs later —
+    this is the classifier the oracle uses for `reuse-steals-controller`. -/
+theorem unchanged_keeps_controller_partial_exact (K : Calc R S) (hK : EqPER K) (now : Nat) (new : List R)
+    (old : List (Ctl R S)) (next j : Nat) (r : R) (c : Ctl R S)
+    (hns : noStealS K new old = true)
+    (hj : new[j]? = some r) (hc : (matching K r old)[occurrence K new j r]? = some c) :
+    (build K now new old next)[j]? = some c := by
+  induction new generalizing old next j with
+  | nil => simp at hj
+  | cons r0 rs ih =>
+    by_cases hex : ∃ c' ∈ old, K.eq c'.rule r0 = true
+    · -- r0 finds an equal controller: the first one of its class
+      obtain ⟨l1, c0, l2, e, hl, hc0, -⟩ := reuseIdx_finds K r0 old 0 none hex
+      subst e
+      rw [noStealS_cons_eq K r0 rs l1 c0 l2 hl hc0] at hns
+      rw [build_cons_eq K now r0 rs l1 c0 l2 next hl hc0]
+      cases j with
+      | zero =>
+        simp only [List.getElem?_cons_zero, Option.some.injEq] at hj
+        subst hj
+        simp only [occurrence, List.take_zero, List.countP_nil, matching, List.filter_append,
+          List.filter_cons, hc0, if_true] at hc
+        have : l1.filter (fun c => K.eq c.rule r0) = [] := by
+          rw [List.filter_eq_nil_iff]; intro x hx; simp [hl x hx]
+        rw [this] at hc
+        simpa using hc
+      | succ j' =>
+        simp only [List.getElem?_cons_succ] at hj ⊢
+        refine ih (l1 ++ l2) next j' hns hj ?_
+        simp only [occurrence, List.take_succ_cons, List.countP_cons, matching, List.filter_append,
+          List.filter_cons] at hc ⊢
+        by_cases h0 : K.eq r0 r = true
+        · have hp : K.eq c0.rule r = true := hK.trans _ _ _ hc0 h0
+          have hl1 : l1.filter (fun c => K.eq c.rule r) = [] := by
+            rw [List.filter_eq_nil_iff]; intro x hx hxr
+            have := hK.trans _ _ _ hxr (hK.symm _ _ h0)
+            rw [hl x hx] at this; exact Bool.false_ne_true this
+          simp only [h0, if_true, hp, hl1, List.nil_append] at hc ⊢
+          simpa using hc
+        · have hp : K.eq c0.rule r = false := by
+            by_contra hne
+            have hne' : K.eq c0.rule r = true := by simpa using hne
+            exact h0 (hK.trans _ _ _ (hK.symm _ _ hc0) hne')
+          simp only [h0, hp, Bool.false_eq_true, if_false, Nat.add_zero] at hc ⊢
+          exact hc
+    · -- r0 has no equal controller: it is built anew (fresh, or on the statistic of the first stat-reusable one)
+      have hall : ∀ c' ∈ old, K.eq c'.rule r0 = false := by
+        intro c' hc'; by_contra hne; exact hex ⟨c', hc', by simpa using hne⟩
+      cases j with
+      | zero =>
+        exfalso
+        simp only [List.getElem?_cons_zero, Option.some.injEq] at hj
+        subst hj
+        have hm : c ∈ matching K r0 old := List.mem_of_getElem? hc
+        simp only [matching, List.mem_filter] at hm
+        rw [hall c hm.1] at hm; exact Bool.false_ne_true hm.2
+      | succ j' =>
+        have hcm : c ∈ matching K r old := List.mem_of_getElem? hc
+        simp only [matching, List.mem_filter] at hcm
+        have h0 : ¬ K.eq r0 r = true := by
+          intro h0
+          have := hK.trans _ _ _ hcm.2 (hK.symm _ _ h0)
+          rw [hall c hcm.1] at this; exact Bool.false_ne_true this
+        have hocc : occurrence K (r0 :: rs) (j'+1) r = occurrence K rs j' r := by
+          simp [occurrence, List.take_succ_cons, h0]
+        rw [hocc] at hc
+        have hrmem : r ∈ rs := by
+          simp only [List.getElem?_cons_succ] at hj; exact List.mem_of_getElem? hj
+        rcases reuseIdx_snd K r0 old 0 hall with ⟨-, hnone⟩ | ⟨l1, c0, l2, e, hl, hc0, -⟩
+        · rw [noStealS_cons_fresh K r0 rs old hall hnone] at hns
+          rw [build_cons_fresh K now r0 rs old next hall hnone]
+          simp only [List.getElem?_cons_succ] at hj ⊢
+          exact ih old (next+1) j' hns hj hc
+        · subst e
+          rw [noStealS_cons_stat K r0 rs l1 c0 l2 hall hl hc0] at hns
+          simp only [Bool.and_eq_true, List.all_eq_true] at hns
+          obtain ⟨hd, htail⟩ := hns
+          rw [build_cons_stat K now r0 rs l1 c0 l2 next hall hl hc0]
+          simp only [List.getElem?_cons_succ] at hj ⊢
+          refine ih (l1 ++ l2) (next+1) j' htail hj ?_
+          have hp : K.eq c0.rule r = false := by
+            have := hd r hrmem
+            simp only [Bool.and_eq_true, Bool.not_eq_true'] at this
+            exact this.1
+          simp only [matching, List.filter_append, List.filter_cons, hp, Bool.false_eq_true, if_false] at hc ⊢
+          exact hc
+
+/-- what the oracle evaluates (`stealSim`, which also knows about constructor normalisation and decision-neutral fields) is
+    exactly `noStealS` for a calculus without normalisation and with `canon = id` — the circuit-breaker manager -/
+theorem stealSim_eq_noStealS (K : Calc R S) (hnorm : ∀ r, K.norm r = r) (new : List R) (old : List (Ctl R S)) :
+    stealSim K id new old = noStealS K new old := by
+  induction new generalizing old with
+  | nil => rfl
+  | cons r rs ih =>
+    rw [stealSim, noStealS]
+    rcases hres : reuseIdx K r old 0 none with ⟨a, b⟩
+    cases a with
+    | some i => exact ih _
+    | none =>
+      cases b with
+      | none => exact ih _
+      | some j =>
+        simp only
+        cases hj : old[j]? with
+        | none => exact ih _
+        | some c =>
+          simp only
+          have hall : ∀ c' ∈ old, K.eq c'.rule r = false := by
+            intro c' hc'
+            by_contra hne
+            obtain ⟨l1, c0, l2, _, _, _, hi⟩ := reuseIdx_finds K r old 0 none ⟨c', hc', by simpa using hne⟩
+            rw [hres] at hi
+            simp at hi
+          have hown : (old.findIdx? fun c' => K.eq c'.rule r || K.eq (id c'.rule) (id r)) = none := by
+            rw [List.findIdx?_eq_none_iff]
+            intro x hx
+            simp [hall x hx]
+          rw [hown, ih]
+          simp [hnorm]
+
+theorem stealSim_cb (new : List CbRule) (old : List (Ctl CbRule CbSt)) :
+    stealSim cbCalc id new old = noStealS cbCalc new old := stealSim_eq_noStealS cbCalc (fun _ => rfl) new old
+
 /-- the hypothesis of the partial theorem is satisfiable and the conclusion is not vacuous: old `[A]`, new `[A, A′]` -/
 example : noStealB cbCalc [⟨1,7,2,60000,1,10000,1,0,1,0⟩, ⟨2,7,2,60000,1,10000,1,0,50,0⟩]
     [⟨0, ⟨1,7,2,60000,1,10000,1,0,1,0⟩, cbFresh ⟨1,7,2,60000,1,10000,1,0,1,0⟩ 5⟩] = true := by decide
@@ -486,6 +635,22 @@ theorem stat_reuse_keeps_statistics (K : Calc R S) (now : Nat) (new : List R) (o
 /-- what "the statistic" is for the three managers: the breaker's window counters, the flow controller's read statistic -/
 theorem cb_reuse_keeps_counters (r : CbRule) (st : CbSt) (now : Nat) : (cbCalc.reuse r st now).arr = st.arr := rfl
 theorem hot_reuse_keeps_counters (r : HotRule) (st : HotSt) (now : Nat) : hotCalc.reuse r st now = st := rfl
+/-- in particular the per-value concurrency cells (calls in flight) are handed over -/
+theorem hot_reuse_keeps_cells (r : HotRule) (st : HotSt) (now : Nat) : (hotCalc.reuse r st now).conc = st.conc := rfl
+
+/-- a hotspot concurrency rule never looks at `BurstCount` / `MaxQueueingTimeMs`: a controller bound to the rule with
+    these fields changed decides and updates exactly alike (so such a modification, which goes through the stat-reuse
+    path, must be invisible — the oracle claims it) -/
+theorem hot_neutral_same_decisions (now arg : Nat) (c : Ctl HotRule HotSt) (hm : c.rule.mtype = 0) :
+    hotCheckOne now arg { c with rule := c.rule.neutral }
+      = ((hotCheckOne now arg c).1, { (hotCheckOne now arg c).2 with rule := (hotCheckOne now arg c).2.rule.neutral }) := by
+  unfold HotRule.neutral
+  simp only [hm, if_true, hotCheckOne, hotConcOne]
+  cases kvGetI c.st.conc arg <;> simp [hm]
+
+theorem hot_neutral_of_qps (r : HotRule) (hm : r.mtype ≠ 0) : r.neutral = r := by
+  simp [HotRule.neutral, hm]
+
 theorem flow_reuse_keeps_stat (r : FlowRule) (st : FlowSt) (now : Nat) : (flowCalc.reuse r st now).stat = st.stat := rfl
 
 end Sentinel.C14
